@@ -32,6 +32,22 @@ CLAIMED["C02"] = ("exploration",
     "Trusted: Denote as the definition of 'same set'. Known findings (sparse strings, superimposed bytes, two panic sites in Less) are matched by hazard+mode or panic site; interchangeability is sampled over 12 contexts.",
     "DESIGN.md §7 C02")
 
+CLAIMED["C05"] = ("exploration",
+    "runtime reference-model monitor: call / ?: / >> / >>> / ++ / n\\ on live keyed collections compared with the set-of-pairs model; transformer probes log what they are fed",
+    "Every pair-shaped model value (strings, bytes, arrays with offsets/holes/superimposed indices, dicts incl. multi-valued and non-string keys, {|@,x|} relations, mixed-payload sets), in every representation its construction paths yield, is called with every present key and with absent, just-outside, negative, non-integer and wrong-kind arguments (with and without ?:), mapped with >> and >>> through five logging native transformers (identity, +1, constant, kind-changing, failing; the index argument of >>> is logged too), concatenated with every same-kind sequence, and offset by n in {-2,-1,0,1,3,1.5}. Exactly-one rule, fallback only in the no-value case, keys unchanged, every associated value fed exactly once.",
+    "Trusted: the pair-set model. Known findings (superimposed/sparse sequences, multi-valued dict keys, non-integer offsets, one panic site) matched by hazard+mode.",
+    "DESIGN.md §7 C05")
+CLAIMED["C19"] = ("fault_enumeration",
+    "runtime snapshot monitor over real and in-memory filesystems + enumeration of an injected I/O error at every filesystem operation",
+    "arrai.OutputValue is run on generated descriptions x pre-existing states on a real directory and on MemMapFs; before/after snapshots are compared with a model of the description and the ifExists rules taken from the docs (clauses exact, confined, atomic with the kind of residue as mode); for the fault clause a wrapper filesystem fails the n-th operation for every n of the fault-free run and the command must report an error. Exhaustive small core of descriptions/pre-states + seeded slice; every operation kind is a fault point.",
+    "Trusted: the description/ifExists model (from docs/docs/cli/eval.md), the recording afero wrapper. CLI flag wiring in cmd/arrai is not executed; state after an injected fault is not judged (per the property).",
+    "DESIGN.md §7 C19")
+CLAIMED["C20"] = ("exploration",
+    "runtime reference-model monitor: leaf census over the denotation of each test file vs test.RunTests verdict, parsed report and ForeachLeaf callbacks",
+    "Generated result trees (all trees of depth<=2 over a small leaf alphabet, exhaustive; deeper seeded ones) in 24 container spellings (sparse/offset arrays, dicts with odd keys, relation-literal arrays, unions) and directory layouts (nested, hidden, non-test files, unevaluable files) are run through test.RunTests on a MemMapFs; verdict (nil error iff every leaf is literal true), each-leaf-once, counts-add-up and which-files-ran are compared with a census computed on the denotation.",
+    "Trusted: the census model, the report parser. Ambiguous containers ([] \"\" {} = false; multi-valued dicts) are judged on the verdict only; the 3-line CLI wrapper is not executed.",
+    "DESIGN.md §7 C20")
+
 NOT_YET = "check not built yet in this session (planned, see DESIGN.md §7/§12); will be claimed once its monitor is silent on the unchanged tree and catches seeded breaks"
 
 def main():
